@@ -49,6 +49,8 @@ type Thread struct {
 	started bool
 	// pending operation while parked at a point
 	wantLock *Mutex
+	wantR    *RWMutex // wants a read lock
+	wantW    *RWMutex // wants the write lock
 	wantWG   *WaitGroup
 	Ops      int // hooked operations executed (for state keys)
 	body     func()
@@ -139,6 +141,12 @@ func (s *Sched) enabledLocked(t *Thread) bool {
 		return false
 	}
 	if t.wantWG != nil && t.wantWG.n > 0 {
+		return false
+	}
+	if t.wantR != nil && t.wantR.w.held {
+		return false
+	}
+	if t.wantW != nil && (t.wantW.w.held || t.wantW.readers > 0) {
 		return false
 	}
 	return true
@@ -232,6 +240,44 @@ func (s *Sched) release(m *Mutex) {
 	m.held = false
 	m.owner = nil
 	m.sch.Store(nil)
+	s.mu.Unlock()
+}
+
+func (s *Sched) acquireW(m *RWMutex) {
+	s.mu.Lock()
+	t := s.callerLocked()
+	t.Ops++
+	t.wantW = m
+	if !s.dispatchLocked(t, "wlock", m.w.ident()) {
+		s.park(t)
+	}
+	m.w.held = true
+	m.w.owner = t
+	m.w.sch.Store(s)
+	t.wantW = nil
+	s.mu.Unlock()
+}
+
+func (s *Sched) acquireR(m *RWMutex) {
+	s.mu.Lock()
+	t := s.callerLocked()
+	t.Ops++
+	t.wantR = m
+	if !s.dispatchLocked(t, "rlock", m.w.ident()) {
+		s.park(t)
+	}
+	m.readers++
+	m.rsch.Store(s)
+	t.wantR = nil
+	s.mu.Unlock()
+}
+
+func (s *Sched) releaseR(m *RWMutex) {
+	s.mu.Lock()
+	m.readers--
+	if m.readers == 0 {
+		m.rsch.Store(nil)
+	}
 	s.mu.Unlock()
 }
 
